@@ -407,8 +407,12 @@ class _GitFile(IO[bytes]):
                     # Windows versions prior to Vista don't support atomic
                     # renames
                     _fancy_rename(self._lockfilename, self._filename)
-        finally:
+        except BaseException:
             self.abort()
+            raise
+        # The rename consumed our lock file. Don't call abort() here: it
+        # would remove a lock that another process may have taken since.
+        self._closed = True
 
     def __del__(self) -> None:
         if not getattr(self, "_closed", True):
